@@ -1415,8 +1415,10 @@ class Array(RegisterObject):
 
         arg = type(self)._generic_arg_
 
-        start = arg.offset - self._global_offset_
-        stop = arg.end - self._global_offset_
+        # element offsets are relative to the array itself
+        # (self._global_offset_ already includes arg.offset and the offset of the parent)
+        start = 0
+        stop = arg.end - arg.offset
         step = arg.array_step
 
         elements = []
